@@ -9,8 +9,7 @@ from ..pyfront import unparse, try_const, norm_key
 INT_CLOSED = {'Add': '+', 'Sub': '-', 'Mult': '*', 'FloorDiv': '//', 'LShift': '<<', 'RShift': '>>', 'BitOr': '|', 'BitAnd': '&'}
 
 
-def ws(s):
-    return re.sub(r'\s+', ' ', s)
+from ..pyfront import ws  # noqa: E402,F401  (whitespace-collapsed, rename/normal-form tolerant `in`)
 
 
 def run(ctx, L, tier):
@@ -162,7 +161,18 @@ def raw_expressions(ctx, L):
 def to_literal(ctx, L):
     for modname in ('prophyc.generators.cpp', 'prophyc.generators.cpp_full'):
         f = ctx.py.mod(modname).func('_to_literal')
-        L.check(ws(unparse(f.node)).endswith("try: return '{}{}'.format(value, int(value, 0) > 0 and 'u' or '') except ValueError: return value"),
+        from . import shared_py as P
+        L.check(P.body_is(f, '''
+                    try:
+                        return '{}{}'.format(value, int(value, 0) > 0 and 'u' or '')
+                    except ValueError:
+                        return value
+                ''', '''
+                    try:
+                        return '{}{}'.format(value, 'u' if int(value, 0) > 0 else '')
+                    except ValueError:
+                        return value
+                ''', params=['value']),
                 'C14f.to-literal', modname.split('.')[-1] + '._to_literal', f.site(),
                 'the unsigned suffix is appended only to positive integer literals; anything else is passed through unchanged', ws(unparse(f.node)))
 
